@@ -73,6 +73,8 @@ class MemoryAccess:
                                     self.server.reset_query()
                                     self.state = DMState.IDLE
                                     self.server.error = 0x0
+                                    # keep listening for the next request
+                                    self._ca.subscribe(self._listen_for_dm14)
 
                 case DMState.REQUEST_STARTED:
                     self.server.parse_dm14(priority, pgn, sa, timestamp, data)
